@@ -311,6 +311,9 @@ impl Prop for C04 {
             "termination is observed as a 20 s per-case bound (the median case takes well under a millisecond); a single expiry is inconclusive unless it reproduces twice at the doubled limit".into(),
         ]
     }
+    fn hang_is_violation(&self) -> bool {
+        true
+    }
     fn required_classes(&self, _tier: Tier) -> Vec<&'static str> {
         vec!["parse-errors", "type-errors-only", "clean", "compile-entry-points-called", "non-ascii", "depth:33-64"]
     }
